@@ -91,13 +91,13 @@ def dir_hashsums(dir: Path, alg: str = DEF_HASH_ALG) -> DirHashsums:
             fname = relpath.name
             relpath = relpath.parent  # directory dicts to create = up to parent
 
-        if is_file:
-            val = file_hashsum(path, alg)  # value = hashsum
-        elif is_sym:
+        if is_sym:  # (must be checked first, is_file follows symlinks!)
             sym_trg = rel_symlink(dir, path)
             if sym_trg is None:
                 raise ValueError(f"Symlink inside '{dir}' points to the outside!")
             val = "symlink:" + str(sym_trg)  # value = symlink target
+        elif is_file:
+            val = file_hashsum(path, alg)  # value = hashsum
 
         # create nested dicts, if not existing yet
         curr = ret
